@@ -1,4 +1,5 @@
 import D2P.Props.C02Notes
+import D2P.Props.C12Body
 /-!
 # C02 — exactly once and in document order, through block wrappers nested to any depth
 
@@ -99,20 +100,20 @@ def seqOK (B : Xml → Bool) : Bool → List Xml → Bool
     else false
 
 def deep : Nat → Xml → Bool
-  | 0, x => isFlatPar x || regTbl x
+  | 0, x => (isFlatPar x || regTbl x || isSimplePar x) && noNotes x
   | n+1, x => deep n x || (pureWrap x && seqOK (deep n) false x.kids)
 
 /-- the identities of the paragraphs below, in document order -/
 def out : Nat → Xml → List Nat
-  | 0, x => blockParIds x
+  | 0, x => if isFlatPar x || regTbl x then blockParIds x else idsOf [x]
   | n+1, x => if deep n x then out n x else if pureWrap x then x.kids.flatMap (fun k => if deep n k then out n k else []) else []
 
 def idsP (s : DC) : List Nat := elemsOf (leavesP s)
 
 /-- what walking a block does to the identities read off `leavesP` -/
 def Step (cfg : PartCfg) (num : Dict Str (List NumAttr)) (x : Xml) (ids : List Nat) : Prop :=
-  ∀ (c : Bool) (s s' : DC), Inv s → ClosedOrPending s → walk cfg num c s x = .ok s' →
-    idsP s' = idsP s ++ ids ∧ Inv s' ∧ s'.openPars = []
+  ∀ (c : Bool) (s s' : DC), Inv s → ClosedOrPending s → NoQ s → Sty okStyles s → walk cfg num c s x = .ok s' →
+    idsP s' = idsP s ++ ids ∧ Inv s' ∧ s'.openPars = [] ∧ NoQ s' ∧ Sty okStyles s'
 
 theorem idsP_pending (s : DC) (p : Par) (h1 : s.openPars = [p]) (hp : p.elem = none) : idsP s = elemsOf (leafParsL s.root) := by
   simp [idsP, leavesP, h1, elemsOf, hp]
@@ -120,72 +121,118 @@ theorem idsP_pending (s : DC) (p : Par) (h1 : s.openPars = [p]) (hp : p.elem = n
 theorem idsP_closed (s : DC) (h0 : s.openPars = []) : idsP s = elemsOf (leafParsL s.root) := by
   simp [idsP, leavesP, h0]
 
-/-- paragraphs and regular tables -/
+/-- the pending implicit paragraph is concluded before ANY `w:p` is walked -/
+theorem walk_par_after_group (cfg : PartCfg) (num : Dict Str (List NumAttr)) (c : Bool) (y : Xml) (s s' : DC) (p : Par)
+    (hy : isSimplePar y = true) (h1 : s.openPars = [p]) (hp : p.elem = none) (h : walk cfg num c s y = .ok s') :
+    ∃ s0, s.concludePar = .ok s0 ∧ leafParsL s0.root = leafParsL s.root ++ [p] ∧ s0.openPars = [] ∧
+      walk cfg num c s0 y = .ok s' := by
+  cases y with
+  | comment _ _ => simp only [isSimplePar, Bool.and_eq_true, beq_iff_eq] at hy; exact absurd hy.1 (by show ¬ lit "None:FAILED-uuid" = paragraphTag; decide)
+  | pi _ => simp only [isSimplePar, Bool.and_eq_true, beq_iff_eq] at hy; exact absurd hy.1 (by show ¬ lit "None:FAILED-uuid" = paragraphTag; decide)
+  | elem i pf t m a tx tl ks =>
+    simp only [isSimplePar, Bool.and_eq_true, beq_iff_eq] at hy
+    exact C02_implicit_in_order cfg num c s s' p h1 hp i pf t m a tx tl ks 4 (elemDepth_par _ hy.1 rfl) h
+
+/-- paragraphs (flat, or with hyperlinks, markers, references: `isSimplePar`) and regular tables -/
 theorem step0 (cfg : PartCfg) (hd : cfg.dup = false) (num : Dict Str (List NumAttr)) (x : Xml) (hx : deep 0 x = true) :
     Step cfg num x (out 0 x) := by
-  simp only [deep, Bool.or_eq_true] at hx
-  intro c s s' hs ho h
-  have closedCase : ∀ (s0 : DC), Inv s0 → s0.openPars = [] → walk cfg num c s0 x = .ok s' →
-      idsP s' = idsP s0 ++ out 0 x ∧ s'.openPars = [] := by
-    intro s0 i0 h0 hw
-    obtain ⟨o, hm, hl, ho1⟩ := step_closed cfg num c x hx s0 s' i0 h0 hw
-    have := C02_once_in_order cfg hd (BlocksMatch.cons hm BlocksMatch.nil)
-    simp only [List.flatMap_cons, List.flatMap_nil, List.append_nil] at this
-    refine ⟨?_, ho1⟩
-    rw [idsP_closed s' ho1, idsP_closed s0 h0, hl, elemsOf_append, this]; rfl
+  simp only [deep, Bool.and_eq_true, Bool.or_eq_true] at hx
+  obtain ⟨hkind, hnn⟩ := hx
+  intro c s s' hs ho hq hsty h
   have i' := walk_inv cfg num x c s s' hs h
-  rcases ho with h0 | ⟨p, h1, hp⟩
-  · obtain ⟨e, c'⟩ := closedCase s hs h0 h
-    exact ⟨e, i', c'⟩
-  · obtain ⟨s0, hc0, hl0, ho0, hw⟩ := walk_block_after_group cfg num c x s s' p hx h1 hp h
-    obtain ⟨e, c'⟩ := closedCase s0 (concludePar_inv s s0 hs hc0) ho0 hw
-    refine ⟨?_, i', c'⟩
-    rw [e, idsP_closed s0 ho0, idsP_pending s p h1 hp, hl0, elemsOf_append]
-    simp [elemsOf, hp]
+  have q' := walk_noq cfg num x hnn c s s' hq h
+  have sty' := walk_sty (okSpec cfg.html) cfg rfl num x c s s' hsty h
+  by_cases hft : (isFlatPar x || regTbl x) = true
+  · have hx' : isFlatPar x = true ∨ regTbl x = true := by simpa [Bool.or_eq_true] using hft
+    have hout : out 0 x = blockParIds x := by simp [out, hft]
+    have closedCase : ∀ (s0 : DC), Inv s0 → s0.openPars = [] → walk cfg num c s0 x = .ok s' →
+        idsP s' = idsP s0 ++ out 0 x ∧ s'.openPars = [] := by
+      intro s0 i0 h0 hw
+      obtain ⟨o, hm, hl, ho1⟩ := step_closed cfg num c x hx' s0 s' i0 h0 hw
+      have := C02_once_in_order cfg hd (BlocksMatch.cons hm BlocksMatch.nil)
+      simp only [List.flatMap_cons, List.flatMap_nil, List.append_nil] at this
+      refine ⟨?_, ho1⟩
+      rw [idsP_closed s' ho1, idsP_closed s0 h0, hl, elemsOf_append, this, hout]
+    rcases ho with h0 | ⟨p, h1, hp⟩
+    · obtain ⟨e, c'⟩ := closedCase s hs h0 h
+      exact ⟨e, i', c', q', sty'⟩
+    · obtain ⟨s0, hc0, hl0, ho0, hw⟩ := walk_block_after_group cfg num c x s s' p hx' h1 hp h
+      obtain ⟨e, c'⟩ := closedCase s0 (concludePar_inv s s0 hs hc0) ho0 hw
+      refine ⟨?_, i', c', q', sty'⟩
+      rw [e, idsP_closed s0 ho0, idsP_pending s p h1 hp, hl0, elemsOf_append]
+      simp [elemsOf, hp]
+  · have hftf : (isFlatPar x || regTbl x) = false := by simpa using hft
+    have hsp : isSimplePar x = true := by
+      rcases hkind with (h1 | h2) | h3
+      · rw [h1] at hftf; simp at hftf
+      · rw [h2] at hftf; simp at hftf
+      · exact h3
+    have hout : out 0 x = idsOf [x] := by simp [out, hftf]
+    -- from a closed state the run machine's theorem gives one record, whose element is the paragraph
+    have closedCase : ∀ (s0 : DC), Inv s0 → s0.openPars = [] → NoQ s0 → Sty okStyles s0 → walk cfg num c s0 x = .ok s' →
+        idsP s' = idsP s0 ++ out 0 x ∧ s'.openPars = [] := by
+      intro s0 _ h0 q0 st0 hw
+      obtain ⟨k, hk⟩ := countStrings_ok (leafParsL s0.root) st0.tree
+      have hout0 : Out s0 k := ⟨h0, q0, hk, st0⟩
+      obtain ⟨_, _, _, _, _, ho', _, p', hl, _, _, he⟩ := par_runs cfg num c k x hsp s0 s' hout0 hw
+      refine ⟨?_, ho'.closed⟩
+      rw [idsP_closed s' ho'.closed, idsP_closed s0 h0, hl, elemsOf_append, hout]
+      simp only [elemsOf, idsOf, List.filterMap_cons, List.filterMap_nil, he]
+    rcases ho with h0 | ⟨p, h1, hp⟩
+    · obtain ⟨e, c'⟩ := closedCase s hs h0 hq hsty h
+      exact ⟨e, i', c', q', sty'⟩
+    · obtain ⟨s0, hc0, hl0, ho0, hw⟩ := walk_par_after_group cfg num c x s s' p hsp h1 hp h
+      have q0 : NoQ s0 := concludePar_noq s s0 hq hc0
+      have st0 : Sty okStyles s0 := concludePar_sty s s0 hsty hc0
+      obtain ⟨e, c'⟩ := closedCase s0 (concludePar_inv s s0 hs hc0) ho0 q0 st0 hw
+      refine ⟨?_, i', c', q', sty'⟩
+      rw [e, idsP_closed s0 ho0, idsP_pending s p h1 hp, hl0, elemsOf_append]
+      simp [elemsOf, hp]
 
 /-- a sequence of siblings: the identities of its blocks, in order -/
 theorem seq_ids (cfg : PartCfg) (num : Dict Str (List NumAttr)) (B : Xml → Bool) (I : Xml → List Nat)
     (hB : ∀ x, B x = true → Step cfg num x (I x)) :
     ∀ (xs : List Xml) (g : Bool) (c : Bool) (s s' : DC), seqOK B g xs = true → Inv s →
-      (g = false → s.openPars = []) → (g = true → ∃ p, s.openPars = [p] ∧ p.elem = none) →
+      (g = false → s.openPars = []) → (g = true → ∃ p, s.openPars = [p] ∧ p.elem = none) → NoQ s → Sty okStyles s →
       walkL cfg num c s xs = .ok s' →
-      idsP s' = idsP s ++ xs.flatMap (fun x => if B x then I x else []) ∧ Inv s' ∧ ClosedOrPending s'
-  | [], g, c, s, s', _, hs, hc, hp, h => by
+      idsP s' = idsP s ++ xs.flatMap (fun x => if B x then I x else []) ∧ Inv s' ∧ ClosedOrPending s' ∧ NoQ s' ∧ Sty okStyles s'
+  | [], g, c, s, s', _, hs, hc, hp, hq, hsty, h => by
     simp only [walkL] at h; have := pure_ok h; subst this
-    refine ⟨by simp, hs, ?_⟩
+    refine ⟨by simp, hs, ?_, hq, hsty⟩
     cases g with
     | false => exact Or.inl (hc rfl)
     | true => exact Or.inr (hp rfl)
-  | x :: r, false, c, s, s', hok, hs, hc, _, h => by
+  | x :: r, false, c, s, s', hok, hs, hc, _, hq, hsty, h => by
     have h0 := hc rfl
     simp only [walkL] at h
     obtain ⟨s1, h1, h⟩ := bind_ok h
     simp only [seqOK] at hok
     by_cases hb : B x = true
     · simp only [hb, if_true] at hok
-      obtain ⟨e1, i1, c1⟩ := hB x hb c s s1 hs (Or.inl h0) h1
-      obtain ⟨e2, i2, cp2⟩ := seq_ids cfg num B I hB r false c s1 s' hok i1 (fun _ => c1) (by intro e; cases e) h
+      obtain ⟨e1, i1, c1, q1, st1⟩ := hB x hb c s s1 hs (Or.inl h0) hq hsty h1
+      obtain ⟨e2, i2, cp2⟩ := seq_ids cfg num B I hB r false c s1 s' hok i1 (fun _ => c1) (by intro e; cases e) q1 st1 h
       exact ⟨by rw [e2, e1]; simp [hb, List.append_assoc], i2, cp2⟩
     · have hbf : B x = false := by simpa using hb
       simp only [hbf, Bool.false_eq_true, if_false] at hok
       by_cases hi : hasContent x = false
       · simp only [hi, Bool.not_false, if_true] at hok
         rw [walk_contentless cfg num x hi c s] at h1; cases h1
-        obtain ⟨e2, i2, cp2⟩ := seq_ids cfg num B I hB r false c s s' hok hs hc (by intro e; cases e) h
+        obtain ⟨e2, i2, cp2⟩ := seq_ids cfg num B I hB r false c s s' hok hs hc (by intro e; cases e) hq hsty h
         exact ⟨by rw [e2]; simp [hbf], i2, cp2⟩
       · have hif : hasContent x = true := by simpa using hi
         simp only [hif, Bool.not_true, Bool.false_eq_true, if_false] at hok
         by_cases hg : (opensFirst x && flatInline x) = true
         · simp only [hg, if_true] at hok
           simp only [Bool.and_eq_true] at hg
-          obtain ⟨p, t, _, hone, he, _, hl, _⟩ := C02_stray_block cfg num c x s s1 hg.1 hg.2 h0 h1
+          obtain ⟨p, t, _, hone, he, _, hl, hq1, _⟩ := C02_stray_block cfg num c x s s1 hg.1 hg.2 h0 h1
           have i1 := walk_inv cfg num x c s s1 hs h1
-          obtain ⟨e2, i2, cp2⟩ := seq_ids cfg num B I hB r true c s1 s' hok i1 (by intro e; cases e) (fun _ => ⟨p, hone, he⟩) h
+          have st1 := walk_sty (okSpec cfg.html) cfg rfl num x c s s1 hsty h1
+          obtain ⟨e2, i2, cp2⟩ := seq_ids cfg num B I hB r true c s1 s' hok i1 (by intro e; cases e) (fun _ => ⟨p, hone, he⟩) hq1 st1 h
           refine ⟨?_, i2, cp2⟩
           rw [e2, idsP_pending s1 p hone he, idsP_closed s h0, hl]; simp [hbf]
         · have : (opensFirst x && flatInline x) = false := by simpa using hg
           simp [this] at hok
-  | x :: r, true, c, s, s', hok, hs, _, hp, h => by
+  | x :: r, true, c, s, s', hok, hs, _, hp, hnq, hsty, h => by
     obtain ⟨p, h1p, hep⟩ := hp rfl
     simp only [walkL] at h
     obtain ⟨s1, h1, h⟩ := bind_ok h
@@ -215,17 +262,19 @@ theorem seq_ids (cfg : PartCfg) (num : Dict Str (List NumAttr)) (B : Xml → Boo
         cases hbx : B x with
         | false => rfl
         | true =>
-          have := (hB x hbx c s s1 hs (Or.inr ⟨q, h1p, hep⟩) h1).2.2
+          have := (hB x hbx c s s1 hs (Or.inr ⟨q, h1p, hep⟩) hnq hsty h1).2.2.1
           rw [hone] at this; cases this
-      obtain ⟨e2, i2, cp2⟩ := seq_ids cfg num B I hB r true c s1 s' hok i1 (by intro e; cases e) (fun _ => ⟨q', hone, he'⟩) h
+      have q1 : NoQ s1 := by unfold NoQ; rw [g.queued]; exact hnq
+      have st1 := walk_sty (okSpec cfg.html) cfg rfl num x c s s1 hsty h1
+      obtain ⟨e2, i2, cp2⟩ := seq_ids cfg num B I hB r true c s1 s' hok i1 (by intro e; cases e) (fun _ => ⟨q', hone, he'⟩) q1 st1 h
       refine ⟨?_, i2, cp2⟩
       rw [e2, idsP_pending s1 q' hone he', idsP_pending s q h1p hep, g.root]; simp [hnb]
     · have hff : flatInline x = false := by simpa using hf
       simp only [hff, Bool.false_eq_true, if_false] at hok
       by_cases hb : B x = true
       · simp only [hb, if_true] at hok
-        obtain ⟨e1, i1', c1⟩ := hB x hb c s s1 hs (Or.inr ⟨p, h1p, hep⟩) h1
-        obtain ⟨e2, i2, cp2⟩ := seq_ids cfg num B I hB r false c s1 s' hok i1' (fun _ => c1) (by intro e; cases e) h
+        obtain ⟨e1, i1', c1, q1, st1⟩ := hB x hb c s s1 hs (Or.inr ⟨p, h1p, hep⟩) hnq hsty h1
+        obtain ⟨e2, i2, cp2⟩ := seq_ids cfg num B I hB r false c s1 s' hok i1' (fun _ => c1) (by intro e; cases e) q1 st1 h
         exact ⟨by rw [e2, e1]; simp [hb, List.append_assoc], i2, cp2⟩
       · have : B x = false := by simpa using hb
         simp [this] at hok
@@ -242,7 +291,7 @@ theorem stepWrap (cfg : PartCfg) (num : Dict Str (List NumAttr)) (B : Xml → Bo
   | elem i pf t m a tx tl ks =>
     simp only [pureWrap, Bool.and_eq_true] at hw
     obtain ⟨d, hd⟩ := Option.isSome_iff_exists.1 hw.2
-    intro c s s' hs ho h
+    intro c s s' hs ho hq hsty h
     obtain ⟨s1, s3, s4, h1, h3, h4, h5⟩ := walk_wrapper' cfg num c s s' i pf t m a tx tl ks hw.1 h
     rw [hd] at h1 h4 h5
     unfold DC.setCaretOpen at h1
@@ -253,12 +302,18 @@ theorem stepWrap (cfg : PartCfg) (num : Dict Str (List NumAttr)) (B : Xml → Bo
     have i1 := setCaret_inv sa s1 _ _ ia h1
     have ho1 : s1.openPars = [] := by rw [f1.openPars]; exact hoa
     have hl1 : leavesP s1 = leavesP s := by simp only [leavesP, f1.leaves, f1.openPars]; exact hla
-    obtain ⟨e3, i3, cp3⟩ := seq_ids cfg num B I hB ks false _ s1 s3 hk i1 (fun _ => ho1) (by intro e; cases e) h3
+    have qa : NoQ sa := by unfold NoQ; rw [(flushImplicit_keeps s sa _ ha).1]; exact hq
+    have sta : Sty okStyles sa := flushImplicit_preserves (P := Sty okStyles) concludePar_sty s sa _ hsty ha
+    have q1 : NoQ s1 := setCaret_noq sa s1 _ _ qa h1
+    have st1 : Sty okStyles s1 := sty_of_frame sa s1 f1 sta
+    obtain ⟨e3, i3, cp3, q3, st3⟩ := seq_ids cfg num B I hB ks false _ s1 s3 hk i1 (fun _ => ho1) (by intro e; cases e) q1 st1 h3
     obtain ⟨hl4, ho4⟩ := flushImplicit_closes s3 s4 d cp3 h4
     have i4 : Inv s4 := flushImplicit_preserves concludePar_inv s3 s4 _ i3 h4
+    have q4 : NoQ s4 := by unfold NoQ; rw [(flushImplicit_keeps s3 s4 _ h4).1]; exact q3
+    have st4 : Sty okStyles s4 := flushImplicit_preserves (P := Sty okStyles) concludePar_sty s3 s4 _ st3 h4
     have f5 := setCaret_frame s4 s' _ _ h5
     have hl5 : leavesP s' = leavesP s4 := by simp [leavesP, f5.leaves, f5.openPars]
-    refine ⟨?_, setCaret_inv s4 s' _ _ i4 h5, by rw [f5.openPars]; exact ho4⟩
+    refine ⟨?_, setCaret_inv s4 s' _ _ i4 h5, by rw [f5.openPars]; exact ho4, setCaret_noq s4 s' _ _ q4 h5, sty_of_frame s4 s' f5 st4⟩
     rw [idsP_of_leavesP (hl5.trans hl4), e3, idsP_of_leavesP hl1]; rfl
 
 /-- **every `deep` block**, by induction on the nesting depth of the wrappers -/
@@ -296,7 +351,10 @@ theorem C02_deep_once_in_order (cfg : PartCfg) (hd : cfg.dup = false) (num : Dic
   have i1 := setCaret_inv _ s1 _ _ i0 h1
   have ho1 : s1.openPars = [] := by rw [f1.openPars]
   have hl1 : leafParsL s1.root = [] := by rw [f1.leaves]; rfl
-  obtain ⟨e3, _, cp3⟩ := seq_ids cfg num (deep n) (out n) (fun k hk => deep_step cfg hd num n k hk) ks false _ s1 s3 hok i1 (fun _ => ho1) (by intro e; cases e) h3
+  have st0 : Sty okStyles ({ bullets := { numAttrs := num } } : DC) := ⟨by intro p hp; simp [leafParsL] at hp, by simp, by simp⟩
+  have q1 : NoQ s1 := setCaret_noq _ s1 _ _ (show NoQ ({ bullets := { numAttrs := num } } : DC) from rfl) h1
+  have st1 : Sty okStyles s1 := sty_of_frame _ s1 f1 st0
+  obtain ⟨e3, _, cp3, _, _⟩ := seq_ids cfg num (deep n) (out n) (fun k hk => deep_step cfg hd num n k hk) ks false _ s1 s3 hok i1 (fun _ => ho1) (by intro e; cases e) q1 st1 h3
   obtain ⟨hl4, hfin4, _⟩ := flushImplicit_leavesP s3 s4 _ cp3 h4
   have f5 := setCaret_frame s4 s5 _ _ h5
   have hfin5 : s5.openPars = [] ∨ ∃ p, s5.openPars = [p] ∧ p.elem = none := by rw [f5.openPars]; exact hfin4
@@ -341,7 +399,8 @@ theorem C02_deep_document (cfg : PartCfg) (hd : cfg.dup = false) (num : Dict Str
   have f4 := Except.ok.inj ((flushImplicit_none b3).symm.trans g4)
   have f5 : b4 = sb := Except.ok.inj (by rw [← g5]; rfl)
   subst f1; subst f4; subst f5
-  obtain ⟨e3, _, cp3⟩ := seq_ids cfg num (deep n) (out n) (fun k hk => deep_step cfg hd num n k hk) ks false _ _ b3 hok (init_inv _) (fun _ => rfl) (by intro e; cases e) g3
+  have st0 : Sty okStyles ({ bullets := { numAttrs := num } } : DC) := ⟨by intro p hp; simp [leafParsL] at hp, by simp, by simp⟩
+  obtain ⟨e3, _, cp3, _, _⟩ := seq_ids cfg num (deep n) (out n) (fun k hk => deep_step cfg hd num n k hk) ks false _ _ b3 hok (init_inv _) (fun _ => rfl) (by intro e; cases e) rfl st0 g3
   rw [finish_leaves cfg b3 dc hq5 cp3 hf]
   show idsP b3 = _
   rw [e3]
